@@ -82,7 +82,19 @@ def run(tier, seed):
                 cm = dict(authsim.Cred(kind).cose_map())
                 cm.update({2: b"key-id", 4: [1, 2]} if i % 12 == 4 else {-70000: b"vendor", "note": "x"})
                 s.k["cose_bytes"] = cbor2.dumps(cm)
+            trust_list_with_inter = fmt in ("packed", "tpm", "apple", "android-safetynet") and i % 7 in (3, 6)
+            if trust_list_with_inter:
+                s.n_inter, s.roots_mode = 1, ("rp" if i % 7 == 6 else ("several" if fmt in ("packed", "tpm") else "rp-only"))
+                # the statement carries only the leaf; the RP's trust list (as FIDO metadata has it) holds the root AND the issuing intermediate
+                s.k["x5c_override"] = lambda pki, leaf: [regsim.der(leaf)]
             pd, reg = regsim.build(s)
+            if trust_list_with_inter:
+                pki_ = regsim.PKI(tag=s.pki_tag, n_inter=1, **s.k.get("pki_kw", {}))
+                inter_pem = regsim.pem(pki_.inters[0])
+                if pd.get("roots", {}).get(s.fmt_name()):
+                    pd = dict(pd, roots={f: (list(l) + [inter_pem] if f == s.fmt_name() else l) for f, l in pd["roots"].items()})
+                else:
+                    pd = dict(pd, roots=dict(pd.get("roots") or {}, **{s.fmt_name(): [inter_pem]}))      # (built-in root in force, the RP adds the intermediate)
             if i % 6 == 3 and pd.get("roots"):
                 # the same anchors in other admissible PEM spellings (leading newline, comment / `openssl x509` preamble, CRLF, trailing text)
                 deco = [lambda p: b"\n" + p, lambda p: b"# RP trust anchor\n" + p, lambda p: b"subject=/CN=anchor\nissuer=/CN=anchor\n" + p,
@@ -123,6 +135,22 @@ def run(tier, seed):
         else:
             os.environ["TZ"] = saved_tz
         _time.tzset()
+    # RSA credentials whose public exponent is not 65537 (3, 17, 65539, a 5-byte one): conformant, through registration formats that use the credential key and authentication
+    for e in (3, 17, 65539, 0x0100000001):
+        rc = authsim.rsa_cred_exponent(e)
+        for fmt in ("none", "packed-self"):
+            s = regsim.RScn(fmt, "RS256")
+            s.k["cose_bytes"] = rc.cose_bytes
+            if fmt == "packed-self":
+                s.k["signer"] = rc
+            pd, reg = regsim.build(s)
+            reg.cred = rc
+            B.run_case(regrun.policy_of(pd), reg, "dict", "accept", f"conformant/{fmt} rsa-exponent-{e}", scn=s)
+        sa = authcat.Scn("RS256")
+        pol0, a = sa.build()
+        import hashlib as _hl
+        a.sig = rc.sign(a.ad + _hl.sha256(a.cdj).digest())
+        A.run_case(impl.AuthPolicy(pol0.challenge, pol0.rp_id, pol0.origin, rc.cose_bytes, pol0.count, False), a, "record", "accept", f"conformant-assertion rsa-exponent-{e}")
     # every TCG vendor id
     for v in TCG_VENDORS:
         s = regsim.RScn("tpm", "RS256", "RS256")
